@@ -11,6 +11,15 @@ NOTE = ("Trusted base: the Go type checker (go/types), go/packages loading of /r
 
 # id -> (technique, level text, design ref)
 CLAIMS = {
+ "C37": ("recover-arm summaries of the lexer/parser/checker boundaries + controlling-condition checks of the depth and token limits (SSA) + deferred restoration of the depth counters",
+         "Structural necessary conditions: every panic of lexing, parsing and checking becomes a returned error, recursion depth and token count are bounded by tests that dominate the growth, and depth counters are restored on every exit.",
+         "DESIGN.md §4 C37"),
+ "C41": ("type-switch exhaustiveness over cadence.Value/Type implementers (go/types) + emitted-vs-accepted kind-string agreement + recover-arm summary of Decode",
+         "Structural necessary conditions: every value and type kind has an encoder arm, every kind string the encoder emits is known to the decoder (the one exception of the reviewed tree is a known finding), and Decode converts error panics into returned errors.",
+         "DESIGN.md §4 C41"),
+ "C43": ("per-kind agreement of the cadence value constructors used by the JSON and the CCF decoder (resolved callees)",
+         "Structural necessary condition: both decoders build each kind of value through the same cadence constructors; a kind only one decoder can build is reported (attachments: known finding).",
+         "DESIGN.md §4 C43"),
  "C27": ("field-coverage of the update validator's type comparator (SSA field reads of the expected type vs the ast struct's semantic fields) + census of the validator's rule functions",
          "Structural necessary conditions: the comparator that decides whether a field's type changed looks at every semantic component of each kind of type, and the validator still runs its kind, field and nested-declaration checks.",
          "DESIGN.md §4 C27"),
